@@ -238,7 +238,7 @@ def check(report, tier):
     # ---- fixed programs over the API the script language cannot express (harness/cpp/apiprog.cpp: C++11 and later, vectors
     #      and FlatSet; harness/cpp/setprog.cpp: C++17 and later, the std::set API with class element types)
     extras = ("c++17.O2.ndebug.extras", "c++17", ["-O2", "-DNDEBUG", "-DAMC_NONSTD_FEATURES"])
-    for prog, matrix, family in (("apiprog", vm + [extras], lambda k: (("PB" in k), ("string" in k))),
+    for prog, matrix, family in (("apiprog", vm + [extras], lambda k: (("PB" in k), ("string" in k), (" from " in k))),
                                  ("setprog", sm + [extras], lambda k: ("Rec" in k,))):
         f, e, cmpd, dist = _fixed_program(report, prog, matrix, family)
         found = found or f
@@ -322,7 +322,7 @@ def replay(payload):
                 elif cur:
                     secs[cur].append(l)
             k = payload["section"]
-            fam = [r for r in secs if r.endswith("(reference)") and (("PB" in r) == ("PB" in k)) and (("string" in r) == ("string" in k)) and (("Rec" in r) == ("Rec" in k))]
+            fam = [r for r in secs if r.endswith("(reference)") and (("PB" in r) == ("PB" in k)) and (("string" in r) == ("string" in k)) and (("Rec" in r) == ("Rec" in k)) and (" from " not in k)]
             if fam and k in secs and secs[k] != secs[fam[0]]:
                 print("VIOLATION property=C16 replay=(replayed: section %s differs from the std:: reference)" % k)
                 return 1
